@@ -28,6 +28,21 @@ OPS = [  # (model constructor, registry name, arity, yaql spelling)
     ("UNot", "#unary_operator_not", 1, "not"),
 ]
 
+CONFIGS = ["CDefault", "CIterDicts", "CLegacy"]
+
+
+def make_config(cfg):
+    """(context, engine) of a configuration whose options touch dispatch"""
+    if cfg == "CDefault":
+        return yaql.create_context(), yaql.YaqlFactory().create()
+    if cfg == "CIterDicts":
+        return yaql.create_context(), yaql.YaqlFactory().create({"yaql.iterableDicts": True})
+    if cfg == "CLegacy":
+        from yaql import legacy
+        return legacy.create_context(), legacy.YaqlFactory().create()
+    raise ValueError(cfg)
+
+
 KINDS = ["KNull", "KBool", "KInt", "KFloat", "KStr", "KList", "KTuple", "KDict", "KSet", "KDateTime", "KTimespan"]
 
 
@@ -202,10 +217,9 @@ def gb(b):
 
 def generate():
     _other.clear()
-    context = yaql.create_context()
-    engine = yaql.YaqlFactory().create()
-    lines = ["(* REGENERATED on every run by harness/gen_scalarops.py from the live registry of",
-             "   yaql.create_context(); do not edit. *)",
+    lines = ["(* REGENERATED on every run by harness/gen_scalarops.py from the live registries of",
+             "   the three configurations of Model.Scalars.cfg (default; engine option yaql.iterableDicts;",
+             "   legacy factory + legacy context); do not edit. *)",
              "From Coq Require Import List ZArith Bool.",
              "From YV Require Import Model.Scalars.",
              "Import ListNotations.",
@@ -213,27 +227,30 @@ def generate():
              "Definition gen_kinds : list kind := [%s]." % "; ".join(KINDS),
              ""]
     total = 0
-    for ctor, name, arity, _ in OPS:
-        layers, spec = describe(context, engine, name, arity)
-        lines.append("(* %s *)" % name)
-        lines.append("Definition t_%s : optable := {|" % ctor)
-        lays = []
-        for lay in layers:
-            items = []
-            for d in lay:
-                total += 1
-                rows = "[" + "; ".join("[" + "; ".join(gb(x) for x in row) + "]" for row in d["rows"]) + "]"
-                items.append(
-                    "    (* %s.%s *)\n    {| ov_id := %d; ov_tag := %s; ov_maps := %s; ov_nokw := %s; ov_lazy := %s;\n       ov_rows := %s |}"
-                    % (d["key"][0], d["key"][1], d["id"], d["tag"], gb(d["maps"]), gb(d["nokw"]),
-                       "[" + "; ".join(str(i) for i in d["lazy"]) + "]" if d["lazy"] else "(@nil nat)", rows))
-            lays.append("   [\n" + ";\n".join(items) + "\n   ]")
-        lines.append("  ot_layers := [\n" + ";\n".join(lays) + "\n  ];" if lays else "  ot_layers := [];")
-        lines.append("  ot_spec := %s |}." % ("[" + "; ".join("(%d, %d)" % p for p in spec) + "]" if spec else "(@nil (nat * nat))"))
-        lines.append("")
-    lines.append("Definition registry (o : op) : optable :=\n  match o with\n" +
-                 "\n".join("  | %s => t_%s" % (c, c) for c, _, _, _ in OPS) + "\n  end.")
+    for cfg in CONFIGS:
+        context, engine = make_config(cfg)
+        for ctor, name, arity, _ in OPS:
+            layers, spec = describe(context, engine, name, arity)
+            lines.append("(* %s  %s *)" % (cfg, name))
+            lines.append("Definition t_%s_%s : optable := {|" % (cfg, ctor))
+            lays = []
+            for lay in layers:
+                items = []
+                for d in lay:
+                    total += 1
+                    rows = "[" + "; ".join("[" + "; ".join(gb(x) for x in row) + "]" for row in d["rows"]) + "]"
+                    items.append(
+                        "    (* %s.%s *)\n    {| ov_id := %d; ov_tag := %s; ov_maps := %s; ov_nokw := %s; ov_lazy := %s;\n       ov_rows := %s |}"
+                        % (d["key"][0], d["key"][1], d["id"], d["tag"], gb(d["maps"]), gb(d["nokw"]),
+                           "[" + "; ".join(str(i) for i in d["lazy"]) + "]" if d["lazy"] else "(@nil nat)", rows))
+                lays.append("   [\n" + ";\n".join(items) + "\n   ]")
+            lines.append("  ot_layers := [\n" + ";\n".join(lays) + "\n  ];" if lays else "  ot_layers := [];")
+            lines.append("  ot_spec := %s |}." % ("[" + "; ".join("(%d, %d)" % p for p in spec) + "]" if spec else "(@nil (nat * nat))"))
+            lines.append("")
+    lines.append("Definition registry_of (c : cfg) (o : op) : optable :=\n  match c, o with\n" +
+                 "\n".join("  | %s, %s => t_%s_%s" % (cfg, c, cfg, c) for cfg in CONFIGS for c, _, _, _ in OPS) + "\n  end.")
     lines.append("")
+    lines.append("Definition registry : op -> optable := registry_of CDefault.")
     lines.append("Definition n_overloads : nat := %d." % total)
     lines.append("(* payloads outside the model (dispatch only): %s *)" %
                  ", ".join("%d=%s.%s" % (i, k[0], k[1]) for k, i in sorted(_other.items(), key=lambda t: t[1])))
